@@ -122,7 +122,7 @@ static std::string showFrame(const WebSocketFrame& f, std::size_t consumed)
 // ---- scripted application sends (re-entrant from callbacks, or one thread's program in a race) -----------------
 struct SendItem
 {
-  char kind = 't';          // t text, b binary, p ping, c close, d inbound data (race programs only)
+  char kind = 't';          // t text, b binary, p ping, c close; race programs only: d inbound data, x disconnect (client)
   Bytes bytes;
   unsigned code = 1000;
 };
@@ -147,6 +147,7 @@ static bool parseItem(const std::string& s, SendItem& it, bool allowData)
   }
   if (p.size() == 2 && p[0] == "d" && allowData) { it.kind = 'd'; return vh::ofHex(p[1], it.bytes); }
   if (p.size() == 3 && p[0] == "c" && vh::parseNat(p[1], n)) { it.kind = 'c'; it.code = static_cast<unsigned>(n); return vh::ofHex(p[2], it.bytes); }
+  if (p.size() == 3 && p[0] == "x" && allowData && vh::parseNat(p[1], n)) { it.kind = 'x'; it.code = static_cast<unsigned>(n); return vh::ofHex(p[2], it.bytes); }
   return false;
 }
 
@@ -167,16 +168,53 @@ static bool parseScript(const std::string& s, std::vector<SendItem>& out, bool a
 template <class T> static auto setClientMax(T& c, std::size_t m, int) -> decltype(c.setMaxFrameSize(m), void()) { c.setMaxFrameSize(m); }
 template <class T> static void setClientMax(T&, std::size_t, long) {}
 
+// the transport-close path: the repaired tree has HttpServer::handleSessionClosed (the body of the close callback registered
+// in start()); an older tree has only the lambda, whose effect on the HTTP-level maps is reproduced here
+template <class T> static auto transportClosed(T& s, SessionId sid, int) -> decltype(s.handleSessionClosed(sid), void()) { s.handleSessionClosed(sid); }
+template <class T> static void transportClosed(T& s, SessionId sid, long)
+{
+  std::lock_guard<std::mutex> lock(s._sessionMutex);
+  s._sessionInfo.erase(sid);
+  s._upgradedSessions.erase(sid);
+}
+template <class T> static auto clearPending(T& s, SessionId sid, int) -> decltype(s._upgradePending.erase(sid), void()) { s._upgradePending.erase(sid); }
+template <class T> static void clearPending(T&, SessionId, long) {}
+template <class T> static auto isPending(T& s, SessionId sid, int) -> decltype(s._upgradePending.count(sid), bool()) { return s._upgradePending.count(sid) > 0; }
+template <class T> static bool isPending(T&, SessionId, long) { return false; }
+
 static const char* kSampleKey = "dGhlIHNhbXBsZSBub25jZQ==";   // RFC 6455 1.3; accept = s3pPLMBiTxaQ9kYGzzhZRbK+xOo=
+
+// a spin lock on an atomic, not a std::mutex: DetSched must not see it (it would add scheduling points to every race)
+struct EvLock
+{
+  std::atomic_flag f = ATOMIC_FLAG_INIT;
+  void lock() { while (f.test_and_set(std::memory_order_acquire)) {} }
+  void unlock() { f.clear(std::memory_order_release); }
+};
 
 struct Srv
 {
   std::unique_ptr<WebSocketServer> s;
   vh::FakeEngine* eng = nullptr;
-  std::vector<std::string> evs;
+  std::vector<std::string> evs;       // pushed by the pool thread during an upgrade: guarded by evMx
+  EvLock evMx;
   std::vector<SendItem> onText, onBinary, onClose, onError;
   bool viaHttp = false;
   static constexpr SessionId sid = 7;
+  std::size_t defaultMax = 0;
+  // upgrade2: one read delivered "by the I/O thread" at a chosen point of the pool thread
+  std::string injectAt;
+  Bytes injectData;
+  std::atomic<bool> injectArmed{false};
+
+  void push(std::string e) { std::lock_guard<EvLock> l(evMx); evs.push_back(std::move(e)); }
+  void inject(const char* point)
+  {
+    if (injectAt != point) return;
+    bool exp = true;
+    if (!injectArmed.compare_exchange_strong(exp, false)) return;
+    s->handleIncomingData(sid, injectData.data(), injectData.size());
+  }
 
   void exec(const SendItem& it)
   {
@@ -201,33 +239,37 @@ struct Srv
     if (!s)
     {
       s = std::make_unique<WebSocketServer>("127.0.0.1", 0);
+      defaultMax = s->_maxFrameSize;      // what the constructor leaves when setMaxFrameSize is never called
       auto fe = std::make_unique<vh::FakeEngine>();
       eng = fe.get();
       TransportConfig cfg;
       cfg.protocol = Protocol::TCP;
       s->_transport = iora::network::test::TransportEngineInjector::withEngine(std::move(fe), cfg);
       eng->onSend = [this](SessionId, const std::string& b) {
-        if (b.compare(0, 12, "HTTP/1.1 101") == 0) evs.push_back("H101");
-        else if (b.compare(0, 5, "HTTP/") == 0) evs.push_back("H:" + b.substr(9, 3));
-        else evs.push_back("S:" + vh::toHex(b));
+        if (b.compare(0, 12, "HTTP/1.1 101") == 0) push("H101");
+        else if (b.compare(0, 5, "HTTP/") == 0) push("H:" + b.substr(9, 3));
+        else push("S:" + vh::toHex(b));
       };
-      eng->onCloseCall = [this](SessionId) { evs.push_back("X"); };
-      s->setOnConnect([this](SessionId, const std::string&) { evs.push_back("O"); });
-      s->setOnTextMessage([this](SessionId, const std::string& t) { evs.push_back("T:" + vh::toHex(t)); runScript(onText); });
-      s->setOnBinaryMessage([this](SessionId, const Bytes& b) { evs.push_back("B:" + vh::toHex(b)); runScript(onBinary); });
+      eng->onCloseCall = [this](SessionId) { push("X"); };
+      s->setOriginCallback([this](SessionId, const std::string&) { inject("origin"); return true; });
+      s->setOnConnect([this](SessionId, const std::string&) { push("O"); inject("connect"); });
+      s->setOnTextMessage([this](SessionId, const std::string& t) { push("T:" + vh::toHex(t)); inject("msg"); runScript(onText); });
+      s->setOnBinaryMessage([this](SessionId, const Bytes& b) { push("B:" + vh::toHex(b)); inject("msg"); runScript(onBinary); });
       s->setOnClose([this](SessionId, std::uint16_t c, const std::string& r) {
-        evs.push_back("C:" + std::to_string(c) + ":" + vh::toHex(r));
+        push("C:" + std::to_string(c) + ":" + vh::toHex(r));
         runScript(onClose);
       });
-      s->setOnError([this](SessionId, const std::string&) { evs.push_back("E"); runScript(onError); });
+      s->setOnError([this](SessionId, const std::string&) { push("E"); runScript(onError); });
     }
-    s->setMaxFrameSize(maxFrame);
+    injectArmed.store(false);
+    s->setMaxFrameSize(maxFrame == static_cast<std::size_t>(-1) ? defaultMax : maxFrame);
     s->_sessions.clear();
     s->_sessions[sid] = WebSocketServer::WsSessionState{};
     {
       std::lock_guard<std::mutex> lock(s->_sessionMutex);
       s->_upgradedSessions.erase(sid);
       s->_sessionInfo.erase(sid);
+      clearPending(*s, sid, 0);
     }
   }
 
@@ -235,31 +277,54 @@ struct Srv
 
   // the REAL upgrade boundary: an upgrade request and `trailing` in one read through HttpServer::handleIncomingData
   // (request extracted, dispatched to the thread pool, onUpgradeRequest, 101 response, buffer drain -> onUpgradedData)
-  void upgrade(const Bytes& trailing)
+  // header values of the upgrade request; an empty value = the header is absent
+  std::string hUpgrade = "websocket", hConnection = "Upgrade", hKey = kSampleKey, hVersion = "13";
+  void defaultHeaders() { hUpgrade = "websocket"; hConnection = "Upgrade"; hKey = kSampleKey; hVersion = "13"; }
+
+  void upgrade(const Bytes& trailing, const std::string& point = "", const Bytes& r2 = Bytes())
   {
     s->_sessions.clear();
     {
       std::lock_guard<std::mutex> lock(s->_sessionMutex);
       s->_upgradedSessions.erase(sid);
+      clearPending(*s, sid, 0);
       s->_sessionInfo[sid] = HttpServer::SessionInfo{};
     }
-    std::string req = std::string("GET /ws HTTP/1.1\r\nHost: h\r\nUpgrade: websocket\r\nConnection: Upgrade\r\nSec-WebSocket-Key: ") +
-                      kSampleKey + "\r\nSec-WebSocket-Version: 13\r\n\r\n";
+    injectAt = point;
+    injectData = r2;
+    injectArmed.store(!point.empty());
+    std::string req = "GET /ws HTTP/1.1\r\nHost: h\r\n";
+    if (!hUpgrade.empty()) req += "Upgrade: " + hUpgrade + "\r\n";
+    if (!hConnection.empty()) req += "Connection: " + hConnection + "\r\n";
+    if (!hKey.empty()) req += "Sec-WebSocket-Key: " + hKey + "\r\n";
+    if (!hVersion.empty()) req += "Sec-WebSocket-Version: " + hVersion + "\r\n";
+    req += "\r\n";
     Bytes all(req.begin(), req.end());
     all.insert(all.end(), trailing.begin(), trailing.end());
     s->handleIncomingData(sid, all.data(), all.size());
-    // the request runs on the server's thread pool: wait until it has answered and the pool is idle again
+    // the request runs on the server's thread pool: wait until it has answered and the pool is idle again.
+    // A generous limit: expiry would be a wedged pool thread.
     auto t0 = std::chrono::steady_clock::now();
     int calm = 0;
-    while (std::chrono::steady_clock::now() - t0 < std::chrono::seconds(10))
+    while (std::chrono::steady_clock::now() - t0 < std::chrono::seconds(120))
     {
       bool answered = false;
-      for (auto& e : evs) if (e[0] == 'H') answered = true;
+      {
+        std::lock_guard<EvLock> l(evMx);
+        for (auto& e : evs) if (e[0] == 'H') answered = true;
+      }
+      // (an idle pool means processHttpRequest has returned: whether the hold on the reads was released is final by then)
       if (answered && poolIdle()) { if (++calm >= 3) break; } else calm = 0;
       std::this_thread::sleep_for(std::chrono::microseconds(200));
     }
     viaHttp = true;
+    // the chosen point never came (no message callback during the drain): the read arrives after the hand-over
+    bool exp = true;
+    if (injectArmed.compare_exchange_strong(exp, false)) s->handleIncomingData(sid, injectData.data(), injectData.size());
   }
+
+  // the transport reports the connection closed (peer dropped TCP, or closeSession() completed)
+  void tclose() { transportClosed(*s, sid, 0); }
 
   void data(const Bytes& d)
   {
@@ -270,9 +335,13 @@ struct Srv
   std::string flush()
   {
     std::string o;
-    if (evs.empty()) o = "-";
-    for (std::size_t i = 0; i < evs.size(); ++i) { if (i) o += ";"; o += evs[i]; }
-    evs.clear();
+    {
+      std::lock_guard<EvLock> l(evMx);
+      if (evs.empty()) o = "-";
+      for (std::size_t i = 0; i < evs.size(); ++i) { if (i) o += ";"; o += evs[i]; }
+      evs.clear();
+    }
+    std::lock_guard<std::mutex> wl(s->_wsMutex);
     auto it = s->_sessions.find(sid);
     bool alive = it != s->_sessions.end();
     o += " | buf=" + std::to_string(alive ? it->second.buffer.size() : 0);
@@ -290,9 +359,33 @@ struct Cli
 {
   std::shared_ptr<WebSocketClient> c;
   vh::FakeEngine* eng = nullptr;
-  std::vector<std::string> evs;
+  std::vector<std::string> evs;       // xrace pushes from two real threads: guarded by evMx
+  EvLock evMx;
+  bool abbrev = false;                // print large payloads as len=<n>
   std::vector<SendItem> onText, onBinary, onClose, onError;
   static constexpr SessionId sid = 7;
+
+  void push(std::string e) { std::lock_guard<EvLock> l(evMx); evs.push_back(std::move(e)); }
+
+  // REAL threads: sendBinary of a large payload against disconnect(); the disconnect starts once the sender is inside its
+  // _sendMutex critical section (flag tested, transport about to be snapshotted, payload about to be copied)
+  std::string xrace(std::size_t bytes)
+  {
+    reset();
+    abbrev = true;
+    Bytes big(bytes, 0x5a);
+    std::atomic<bool> done{false};
+    std::thread a([&] { c->sendBinary(big); done.store(true); });
+    while (!done.load())
+    {
+      if (c->_sendMutex.try_lock()) { c->_sendMutex.unlock(); std::this_thread::yield(); }
+      else break;
+    }
+    c->disconnect(1000, "");
+    a.join();
+    abbrev = false;
+    return flush();
+  }
 
   void exec(const SendItem& it)
   {
@@ -303,6 +396,7 @@ struct Cli
     case 'p': c->sendPing(it.bytes); break;
     case 'c': c->sendClose(static_cast<std::uint16_t>(it.code), std::string(it.bytes.begin(), it.bytes.end())); break;
     case 'd': c->handleData(sid, it.bytes.data(), it.bytes.size()); break;
+    case 'x': c->disconnect(static_cast<std::uint16_t>(it.code), std::string(it.bytes.begin(), it.bytes.end())); break;
     }
   }
   void runScript(const std::vector<SendItem>& sc) { for (auto& it : sc) exec(it); }
@@ -311,6 +405,7 @@ struct Cli
   {
     evs.clear();
     onText.clear(); onBinary.clear(); onClose.clear(); onError.clear();
+    if (c && !c->_transport) c.reset();     // a disconnect() took the transport away: a new client, as connect() would build
     if (!c)
     {
       c = WebSocketClient::create();
@@ -323,9 +418,9 @@ struct Cli
       eng->onSend = [this](SessionId, const std::string& b) {
         std::size_t consumed = 0;
         auto f = WebSocketFrame::parse(iora::core::BufferView(reinterpret_cast<const std::uint8_t*>(b.data()), b.size()), consumed);
-        if (!f || consumed != b.size() || !f->masked) { evs.push_back("S:undecodable-or-unmasked:" + vh::toHex(b)); return; }
-        evs.push_back("S:" + std::to_string(static_cast<unsigned>(static_cast<std::uint8_t>(f->opcode))) + ":" + (f->fin ? "1" : "0") + ":" +
-                      vh::toHex(f->payload));
+        if (!f || consumed != b.size() || !f->masked) { push("S:undecodable-or-unmasked:" + vh::toHex(b.substr(0, 64))); return; }
+        push("S:" + std::to_string(static_cast<unsigned>(static_cast<std::uint8_t>(f->opcode))) + ":" + (f->fin ? "1" : "0") + ":" +
+             ((abbrev && f->payload.size() > 1024) ? "len=" + std::to_string(f->payload.size()) : vh::toHex(f->payload)));
       };
       c->setOnConnect([this](const std::string&) { evs.push_back("O"); });
       c->setOnTextMessage([this](const std::string& t) { evs.push_back("T:" + vh::toHex(t)); runScript(onText); });
@@ -575,7 +670,32 @@ int main()
       }
       if (t.size() >= 2 && t[0] == "srv")
       {
+        if (t.size() == 3 && t[1] == "reset" && t[2] == "default") { srv.reset(static_cast<std::size_t>(-1)); return "ok"; }
         if (t.size() == 3 && t[1] == "reset" && vh::parseNat(t[2], m)) { srv.reset(m); return "ok"; }
+        if (t.size() == 5 && t[1] == "upgrade2" && vh::ofHex(t[2], d) && vh::ofHex(t[4], k) &&
+            (t[3] == "origin" || t[3] == "connect" || t[3] == "msg")) { srv.upgrade(d, t[3], k); return srv.flush(); }
+        if (t.size() == 2 && t[1] == "tclose") { srv.tclose(); return srv.flush(); }
+        if (t.size() == 7 && t[1] == "upgradeh")
+        {
+          Bytes u, c, kk, v;
+          if (!vh::ofHex(t[2], u) || !vh::ofHex(t[3], c) || !vh::ofHex(t[4], kk) || !vh::ofHex(t[5], v) || !vh::ofHex(t[6], d)) return "bad-op";
+          srv.hUpgrade.assign(u.begin(), u.end()); srv.hConnection.assign(c.begin(), c.end());
+          srv.hKey.assign(kk.begin(), kk.end()); srv.hVersion.assign(v.begin(), v.end());
+          srv.upgrade(d);
+          srv.defaultHeaders();
+          std::string o = srv.flush();
+          bool held;
+          {
+            std::lock_guard<std::mutex> lock(srv.s->_sessionMutex);
+            held = isPending(*srv.s, Srv::sid, 0);
+          }
+          bool up;
+          {
+            std::lock_guard<std::mutex> lock(srv.s->_sessionMutex);
+            up = srv.s->_upgradedSessions.count(Srv::sid) > 0;
+          }
+          return o + " held=" + (held ? "1" : "0") + " upgraded=" + (up ? "1" : "0");
+        }
         if (t.size() == 6 && t[1] == "script")
         {
           std::vector<SendItem> a, b, c, e;
@@ -622,6 +742,12 @@ int main()
         if (t.size() == 4 && t[1] == "sendClose" && vh::parseNat(t[2], n) && vh::ofHex(t[3], d))
         {
           cli.c->sendClose(static_cast<std::uint16_t>(n), std::string(d.begin(), d.end()));
+          return cli.flush();
+        }
+        if (t.size() == 3 && t[1] == "xrace" && vh::parseNat(t[2], n) && n <= (256ull << 20)) return cli.xrace(static_cast<std::size_t>(n));
+        if (t.size() == 4 && t[1] == "disconnect" && vh::parseNat(t[2], n) && vh::ofHex(t[3], d))
+        {
+          cli.c->disconnect(static_cast<std::uint16_t>(n), std::string(d.begin(), d.end()));
           return cli.flush();
         }
         if (t.size() >= 5 && t[1] == "race")
